@@ -237,6 +237,17 @@ func stripOneWay(t string) string {
 	return t
 }
 
+// universeIdx: the key universes have 16 members; an index outside them would silently alias another key.
+func (e *Engine) universeIdx(v any) {
+	if k, ok := v.(int64); ok && (k < 0 || k > 15) {
+		e.inconclusive = append(e.inconclusive, fmt.Sprintf("key universe index %d outside 0..15", k))
+	} else if s, ok := v.(SymInt); ok {
+		if r := e.S.CheckWith("(or (< " + s.E + " 0) (> " + s.E + " 15))"); r != "unsat" {
+			e.inconclusive = append(e.inconclusive, "symbolic key universe index may leave 0..15")
+		}
+	}
+}
+
 func (e *Engine) intrinsic2(name string, args []any) (any, bool) {
 	switch name {
 	case "Garbage": // bytes that no decoder accepts: first byte 0xFF (invalid protobuf wire type, outside the base64/base58 alphabets)
@@ -251,10 +262,13 @@ func (e *Engine) intrinsic2(name string, args []any) (any, bool) {
 		e.S.Send(fmt.Sprintf("(assert (not (str.prefixof \"\\u{1}\" %s)))", n))
 		return BytesV{E: n}, true
 	case "Pkix": // pkix of key #i (i symbolic)
+		e.universeIdx(args[0])
 		return BytesV{E: pkixE(intE(args[0]))}, true
 	case "X25519Priv": // 32-byte private scalar of universe key k (distinct per k)
+		e.universeIdx(args[0])
 		return BytesV{E: "(x25519priv " + intE(args[0]) + ")"}, true
 	case "X25519Pub":
+		e.universeIdx(args[0])
 		return BytesV{E: e.x25519Pub("(x25519priv " + intE(args[0]) + ")")}, true
 	case "SecretFree": // no secret occurs in clear in any byte/string field of the message
 		var leaves []string
